@@ -283,3 +283,89 @@ class MMutCircuit(MCircuit):
             if t == "bb_output" and (len(fo) > 1 or any(self._attrs[v].get("type") != "buf" for v in fo)):
                 bad.append(f"bb_output {n} load")
         return bad
+
+
+# ---------------------------------------------------------------------------
+# SAT-side models (PySAT's IDPool / CNF / Solver interfaces, frozen facts)
+# ---------------------------------------------------------------------------
+class MIDPool(Model):
+    """pysat.formula.IDPool: id(obj) hands out 1,2,3.. per distinct hashable obj."""
+
+    def __init__(self, start_from=1):
+        self._ids = {}
+        self._objs = {}
+        self._next = start_from
+        self._calls = []
+
+    def id(self, obj=None):
+        self._calls.append(obj)
+        if obj is None:
+            i = self._next
+            self._next += 1
+            return i
+        try:
+            hash(obj)
+        except TypeError:
+            raise ModelRaise("TypeError", "unhashable IDPool key")
+        if obj not in self._ids:
+            self._ids[obj] = self._next
+            self._objs[self._next] = obj
+            self._next += 1
+        return self._ids[obj]
+
+    def obj(self, i):
+        return self._objs.get(i)
+
+    @property
+    def top(self):
+        return self._next - 1
+
+
+class MCNF(Model):
+    def __init__(self, from_clauses=None):
+        self.clauses = [list(c) for c in (from_clauses or [])]
+
+    def append(self, clause):
+        cl = list(clause)
+        for l in cl:
+            if not isinstance(l, int) or isinstance(l, bool) or l == 0:
+                raise ModelRaise("TypeError", f"non-literal {l!r} in clause")
+        self.clauses.append(cl)
+
+    def extend(self, clauses):
+        for c in clauses:
+            self.append(c)
+
+    @property
+    def nv(self):
+        return max([abs(l) for c in self.clauses for l in c] or [0])
+
+    def __iter__(self):
+        return iter(self.clauses)
+
+    def __len__(self):
+        return len(self.clauses)
+
+
+class MSolver(Model):
+    """Scripted solver: `models` is the list of models successive solve() calls find."""
+
+    def __init__(self, bootstrap_with=None, models=None, **kw):
+        self.bootstrap = bootstrap_with
+        self.kwargs = kw
+        self._models = list(models or [])
+        self._cur = None
+        self.added = []
+
+    def solve(self, assumptions=None):
+        if self._models:
+            self._cur = self._models.pop(0)
+            return True
+        self._cur = None
+        return False
+
+    def get_model(self):
+        return list(self._cur) if self._cur is not None else None
+
+    def add_clause(self, clause):
+        self.added.append(list(clause))
